@@ -55,6 +55,10 @@ class Compound:
 class CompoundPrior(AbstractPriorModel, ArithmeticMixin, Compound, ABC):
     cls = float
 
+    # the attribute names of the operands are taken from the caller's variables
+    # (retrieve_name); the identifier must not depend on them
+    __identifier_fields__ = ("left", "right")
+
     def __init__(self, left, right):
         """
         Comprises objects that are to undergo some arithmetic
@@ -327,6 +331,9 @@ class PowerPrior(CompoundPrior):
 
 
 class ModifiedPrior(AbstractPriorModel, ABC, ArithmeticMixin, Compound):
+    # see CompoundPrior: the operand's attribute name is a caller variable name
+    __identifier_fields__ = ("prior",)
+
     def __init__(self, prior, name=None):
         super().__init__()
         self._prior_name = name or retrieve_name(prior)
